@@ -1,20 +1,22 @@
-// C18: coroutine primitives (Scheduler, Channel, Mutex, Semaphore, Broadcast, Condition) —
-// exhaustive enumeration of PROGRAMS (<=3 routines x scripts over a small op alphabet) x MAIN-CONTEXT
-// schedules (loop passes with resume(r) / cancel(r) / cleanup placed at every point), run on the real
-// classes with a real event::Loop, checked against a reference model + quiescence invariants.
+// C18: coroutine primitives (Scheduler, Channel, Mutex, Semaphore, Broadcast, Condition) -
+// exhaustive enumeration of PROGRAMS (<=3 routines x scripts over a small op alphabet) x MAIN-CONTEXT schedules (scheduler rounds with
+// resume(r) / cancel(r) / cleanup placed before every round and at idle), run on the real classes with a real event::Loop, checked
+// against a reference model + quiescence invariants. Coroutine scheduling is deterministic, so scripts x main schedules is the whole space.
 //
 //   harness enum <tag> <ops,comma-separated> <NR> <maxlen> <maxacts> <param> <part> <nparts> [max total steps]
-//   harness replay "<replay text of a @VIOL line>" [ops-of-family-unused]
+//   harness replay "<replay text of a @VIOL line>"          (prints the trace, the idle state and the violations of that one run)
 //
 // Oracle = property C18 statement only:
 //   * values sent on a channel are received exactly once, in FIFO order
 //   * at most one mutex holder; semaphore acquisitions <= releases + initial count
-//   * whenever the scheduler has no ready routine: nobody suspended on a free mutex / positive semaphore /
-//     non-empty channel / broadcast posted or condition satisfied after it began waiting / join whose target finished
+//   * whenever the scheduler has no ready routine: nobody suspended on a free mutex / positive semaphore / non-empty channel /
+//     broadcast posted or condition satisfied after it began waiting / join whose target finished          (no lost wake-ups)
 //   * cancel(r) / cleanup(): every started routine returns failure from its blocking call and terminates
-//   * join returns (success) only once its target has finished
-// Routines check the return code of every blocking call and leave on failure (releasing a held mutex, as
-// Mutex::Locker would).
+//   * join returns success only once its target has finished
+// Routines check the return code of every blocking call and leave on failure (releasing a held mutex, as Mutex::Locker would).
+// Signature = <what>[:waiter-still-queued|:waiter-not-queued]:main=<kinds of main-context action needed>:steps=<program size class>.
+// A supervising parent forks the enumerating child; a run that never ends (CPU watchdog, confirmed by repeating it) or kills the
+// child is reported with the run that was executing, and the enumeration continues after that program.
 #include <tbox/coroutine/scheduler.cpp>   // file-local Scheduler::Data / Routine are needed for the quiescence check
 #include <tbox/coroutine/channel.hpp>
 #include <tbox/coroutine/mutex.hpp>
@@ -379,9 +381,12 @@ static void report(const Prog &p, const std::vector<Act> &sched, RunOut &o, cons
   g_outcomes[o.outcome]++;
   if (o.viols.empty()) return;
   shm->viol_runs++;
-  int size = 0; for (int r = 0; r < p.nr; r++) size += p.s[r].n * 10; size += (int)sched.size();
+  int steps = 0; for (int r = 0; r < p.nr; r++) steps += p.s[r].n;
+  int size = steps * 100 + (int)sched.size();
   for (auto &v : o.viols) {
-    std::string s = v.first + ":main=" + v.second;
+    // the size class of the program is part of the signature: a defect that needs 5+ steps must not hide one that shows with 2
+    char sz[24]; if (steps <= 4) snprintf(sz, sizeof sz, ":steps=%d", steps); else snprintf(sz, sizeof sz, ":steps>4");
+    std::string s = v.first + ":main=" + v.second + sz;
     long &n = g_sig_count[s]; n++;
     std::string text = run_str(p, sched) + "  trace: " + o.trace;
     if (n == 1) { printf("%s sig=%s :: %s\n", VIOLTAG(), s.c_str(), text.c_str()); fflush(stdout); g_sig_small[s] = {size, ""}; }
@@ -419,7 +424,7 @@ static std::vector<Script> all_scripts(const std::vector<int> &alpha, int maxlen
 // CPU time of one program (robust against a stalled / oversubscribed machine); a long wall-clock alarm is the backstop for a blocked run.
 static void on_alarm(int) { _exit(7); }
 static void arm_watchdog() {
-  struct itimerval it; it.it_interval.tv_sec = 0; it.it_interval.tv_usec = 0; it.it_value.tv_sec = 8; it.it_value.tv_usec = 0;
+  struct itimerval it; it.it_interval.tv_sec = 0; it.it_interval.tv_usec = 0; it.it_value.tv_sec = 3; it.it_value.tv_usec = 0;
   setitimer(ITIMER_PROF, &it, nullptr); alarm(600);
 }
 
@@ -478,7 +483,7 @@ static int enum_main(int argc, char **argv) {
     else snprintf(how, sizeof how, "child-exit%d-in-%s", WEXITSTATUS(st), kPhase[shm->phase]);
     if (++crash_sigs[how] <= 3) printf("%s sig=%s :: %s\n", VIOLTAG(), how, run_str(shm->prog, std::vector<Act>(shm->sched, shm->sched + shm->nsched)).c_str());
     start = shm->cur_prog + nparts; shm->programs++;
-    if (++restarts >= 8) { printf("@CAP %s: 8 hung/crashed programs in part %ld/%ld, enumeration stopped at program %ld of %ld\n", tag.c_str(), part, nparts, start, total); break; }
+    if (++restarts >= 4) { printf("@CAP %s: 4 hung/crashed programs in part %ld/%ld, enumeration stopped at program %ld of %ld\n", tag.c_str(), part, nparts, start, total); break; }
   }
   printf("@STAT loops=%ld programs=%ld executions=%ld transitions=%ld states=%ld traces=%ld quiescent_checks=%ld violating_runs=%ld cancels=%ld midrun_cleanups=%ld\n",
          shm->loops, shm->programs, shm->executions, shm->transitions, shm->states, shm->traces, shm->qchecks, shm->viol_runs, shm->cancels, shm->cleanups_mid);
